@@ -1279,13 +1279,13 @@ CLAUSES = [
            budget={"quick": 110, "thorough": 3000},
            what="find_isometry with the kernel basis captured from the implementation: Lean runs gs(partial) ++ gs(ker) exactly on it (by value), evaluates the kernel contract and M F Mᵀ − diag(±1) exactly; force_oriented"),
     Clause("diag_corr", "corr", gen_diag, run_diag, judge_diag, lean=lean_diag, site="utils.diagonalize_form",
-           budget={"quick": 240, "thorough": 4000},
+           budget={"quick": 180, "thorough": 4000},
            what="eigh output captured: Lean evaluates the eigh contract and WᵀBW, W·Winv exactly; the model's order (stable argsort) reproduces W, Winv by value; signs in the requested order; batches with mixed signatures; reverse; with_inverse"),
     Clause("diag_exact_corr", "corr", gen_diag_exact, run_diag_exact, judge_diag_exact, lean=lean_diag_exact, site="utils.diagonalize_form",
            budget={"quick": 120, "thorough": 2000},
            what="diagonalizeForm executed over ℚ on the exact eigen-decomposition of QᵀDQ (distinct eigenvalues, |D| rational squares) vs W, Winv up to the sign of each eigenvector"),
     Clause("kernel_corr", "corr", gen_kernel, run_kernel, judge_kernel, lean=lean_kernel, site="utils.kernel / numerical.svd_kernel / orthogonal_complement",
-           budget={"quick": 240, "thorough": 4000},
+           budget={"quick": 180, "thorough": 4000},
            what="svd captured: model's row selection equals the returned basis exactly; svd contract, A·N, NᵀN−1 exactly; every rank 0..min(m,n) incl. trivial kernel; batches"),
     Clause("sphere_corr", "corr", gen_sphere, run_sphere, judge_sphere, lean=lean_sphere, site="utils.sphere_through / circle_through",
            budget={"quick": 200, "thorough": 3000},
